@@ -484,8 +484,10 @@ def _strategies():
     return st
 
 
-def key_text(st, maxlen):
-    return st.text(st.sampled_from(KEY_ALPHABET), min_size=1, max_size=maxlen)
+def key_text(st, maxlen, pool=None):
+    fresh = st.text(st.sampled_from(KEY_ALPHABET), min_size=1, max_size=maxlen)
+    if pool: return st.one_of(st.sampled_from(pool), st.sampled_from(pool), fresh)
+    return fresh
 
 
 def scalar_value(st, typ, req, key=False, maxlen=4):
@@ -541,7 +543,7 @@ def draw_spec(draw, st, max_ents):
     return {'ents': ents, 'rels': rels}
 
 
-def _draw_pk(draw, st, M, ei, keylen):
+def _draw_pk(draw, st, M, ei, keylen, pool=None):
     e = M.spec['ents'][ei]
     parts = []
     for (name, typ) in PK_PARTS[e['pk']]:
@@ -552,14 +554,14 @@ def _draw_pk(draw, st, M, ei, keylen):
         elif typ == 'int':
             parts.append(draw(st.sampled_from([0, 0, 1, 1, 11, -1, 12])))
         else:
-            parts.append(draw(key_text(st, keylen)))
+            parts.append(draw(key_text(st, keylen, pool)))
     if M.pk_taken(ei, parts): return None
     return parts
 
 
-def _draw_new_object(draw, st, M, ei, keylen, optional_refs):
+def _draw_new_object(draw, st, M, ei, keylen, optional_refs, pool=None):
     """returns (pkparts, vals_json, refs_json) or None"""
-    pkparts = _draw_pk(draw, st, M, ei, keylen)
+    pkparts = _draw_pk(draw, st, M, ei, keylen, pool)
     if pkparts is None: return None
     vals, refs = {}, {}
     for d in M.meta[ei]:
@@ -580,15 +582,18 @@ def _draw_new_object(draw, st, M, ei, keylen, optional_refs):
     return pkparts, vals, refs
 
 
-def draw_op(draw, st, M, kinds, keylen):
+def draw_op(draw, st, M, kinds, keylen, pool=None, prefer=()):
     kind = draw(st.sampled_from(kinds))
     alive = M.alive()
 
     def pick(cands):
+        if prefer and cands and isinstance(cands[0], tuple) and isinstance(cands[0][0], tuple):
+            pref = [c for c in cands if c[0] in prefer]      # (oid, attribute) candidates on preferred objects
+            if pref and draw(st.booleans()): cands = pref
         return cands[draw(st.integers(0, len(cands) - 1))]
     if kind == 'create':
         ei = draw(st.integers(0, len(M.spec['ents']) - 1))
-        new = _draw_new_object(draw, st, M, ei, keylen, True)
+        new = _draw_new_object(draw, st, M, ei, keylen, True, pool)
         if new is None: return None
         oi = 1 + max([o[1] for o in list(M.objs) + list(M.dead) if o[0] == ei] + [-1])
         return ['create', ei, oi, new[0], new[1], new[2]]
@@ -635,11 +640,13 @@ def draw_case(draw, st, size):
     """size: dict(max_ents, max_objs, keylen, max_mods)"""
     spec = draw_spec(draw, st, size['max_ents'])
     M = Mirror(spec)
+    pool = draw(st.lists(st.text(st.sampled_from(KEY_ALPHABET), min_size=1, max_size=size['keylen']),
+                         min_size=1, max_size=3))    # key parts are mostly drawn from a small pool: shared components
     objs = []
     for ei in range(len(spec['ents'])):
         lst = []
         for _ in range(draw(st.integers(0, size['max_objs']))):
-            new = _draw_new_object(draw, st, M, ei, size['keylen'], False)
+            new = _draw_new_object(draw, st, M, ei, size['keylen'], False, pool)
             if new is None: continue
             pkparts, vals, refs = new
             oid = (ei, len(lst))
@@ -673,18 +680,22 @@ def draw_case(draw, st, size):
 
     mods = []
     for _ in range(draw(st.integers(0, size['max_mods']))):
-        op = draw_op(draw, st, M, MOD_KINDS, size['keylen'])
+        op = draw_op(draw, st, M, MOD_KINDS, size['keylen'], pool)
         if op is not None and M.apply(op): mods.append(op)
     case['mods'] = mods
     M.fresh = set()
+    case['plan'] = plan = draw_plan(draw, st, M)     # 'between' neither creates nor deletes objects
+    roots = set()
+    for job in plan['jobs']:
+        if job[0] in ('obj', 'coll'): roots.add(tuple(job[1]))
+        elif job[0] == 'list': roots.update(tuple(x) for x in job[1])
+        elif job[0] == 'query': roots.update(M.alive(job[1]))
     between = []
-    if draw(st.sampled_from([False, True, True])):
-        for _ in range(draw(st.integers(0, 3))):
-            op = draw_op(draw, st, M, BETWEEN_KINDS, size['keylen'])
-            if op is not None and M.apply(op): between.append(op)
+    for _ in range(draw(st.integers(0, 3))):
+        op = draw_op(draw, st, M, BETWEEN_KINDS, size['keylen'], pool, prefer=roots)
+        if op is not None and M.apply(op): between.append(op)
     case['between'] = between
-    case['plan'] = draw_plan(draw, st, M)    # M is the final state here; every object alive at the end was alive
-    return case                               # from the end of the modification session on
+    return case
 
 
 def _draw_names(draw, st, names, nonempty):
@@ -731,7 +742,7 @@ def draw_plan(draw, st, M):
                 jobs.append(['coll', list(oid), n])
         elif jk == 'query':
             ei = draw(st.integers(0, len(M.meta) - 1))
-            form = draw(st.sampled_from(['select_slice', 'gen_slice', 'query', 'tuple']))
+            form = draw(st.sampled_from(['select_slice', 'gen_slice', 'query', 'tuple', 'lazy_limit']))
             jobs.append(['query', ei, form])
     plan['jobs'] = jobs
     plan['preload'] = [list(o) for o in alive if draw(st.sampled_from([False, False, False, True]))]
